@@ -89,7 +89,15 @@ Fixpoint read_items (J m nv : nat) (ws : list Qc) (qs : list Qc) : list (Qc * rv
 Definition op_mu_fisher_total : opfun := fun zs qs =>
   match zs, qs with
   | [J; m; nv], eps :: r => let J' := nz J in let m' := nz m in let nv' := nz nv in
-      out_mres nv' nv' (mu_fisher_total Fq eps m' (read_items J' m' nv' (take J' r) (drop J' r)))
+      match mu_fisher_total Fq eps m' nv' (read_items J' m' nv' (take J' r) (drop J' r)) with
+      | MOk (sz, M) => Ok (qz (Z.of_nat sz) :: outm sz sz M)
+      | MErr c => Err (Z.of_nat c) end
+  | _, _ => Err (-1) end.
+(* same input: the definition  sum_j w_j F_j  (nv x nv), no validation *)
+Definition op_fisher_total_def : opfun := fun zs qs =>
+  match zs, qs with
+  | [J; m; nv], eps :: r => let J' := nz J in let m' := nz m in let nv' := nz nv in
+      Ok (outm nv' nv' (fisher_total_def Fq eps m' (read_items J' m' nv' (take J' r) (drop J' r))))
   | _, _ => Err (-1) end.
 (* zs = [K; len]; qs = xs (K x len) ++ ys (K x len) *)
 Definition op_se : opfun := fun zs qs =>
@@ -270,6 +278,7 @@ Definition C19_ops : optable :=
     ("c19.replace"%string, op_replace);
     ("c19.mu_fisher"%string, op_mu_fisher);
     ("c19.mu_fisher_total"%string, op_mu_fisher_total);
+    ("c19.fisher_total_def"%string, op_fisher_total_def);
     ("c19.se"%string, op_se);
     ("c19.mean_var"%string, op_mean_var);
     ("c19.mse_norm"%string, op_mse_norm);
